@@ -414,7 +414,7 @@ CHECKS = {
 EXTRA_TEXT = {
  "C16": "The proxy can also remember a frame, cut the connection, and inject the remembered frame into the next connection between the same two nodes (it must not be delivered there). ",
  "C14": "The translator also checks, on the syntax tree, the assumption behind the opaque document fetch (dataFetch builds an http.Client with an overall Timeout); the thorough tier runs a data source that sends its headers and stalls inside the body and requires the pipeline's goroutines to be gone when the fetch's own 60 s have passed. Key-generation fault added: every node receives the grouping event a second time while the session it started is still running (the handler of the repeated event must return and leave no goroutine behind).",
- "C20": "Algebraic relatives of each genuine signature - R || (l - s), (-R) || s, (-R) || (l - s), R || (s + 1), the signature under the negated key - must be rejected by both verifiers, and Equal must tell a point from its negation. One scalar object is assigned repeatedly (large value, then values with leading zero bytes, SetInt64 of -1 and 2, Set, Zero, 64-byte input, One) and the operands are checked to be unchanged.",
+ "C20": "Algebraic relatives of each genuine signature - R || (l - s), (-R) || s, (-R) || (l - s), R || (s + 1), the signature under the negated key - must be rejected by both verifiers, and Equal must tell a point from its negation. One scalar object is assigned repeatedly (large value, then values with leading zero bytes, SetInt64 of -1 and 2, Set, Zero, 64-byte input, One) and the operands are checked to be unchanged. The curve arithmetic behind the signatures is exercised through point objects with histories (the register programs of props/pointmachine.go over the Ed25519 group: every register must encode like its logarithm's multiple of the base point computed afresh).",
  "C19": "Histories also contain reconnects (DisconnectAll then Connect, in half of the cases after an attempt that fails because no websocket endpoint answers; C19_reconnect_revives_all), directed ones being followed by a commit-reveal call and a burst. Histories run in child processes (a panic in one of the adaptor's goroutines is attributed to its history); half of the multi-endpoint rigs have a single websocket endpoint. Between the calls of a history the operator changes the gas price and the gas limit (SetGasPrice / SetGasLimit); every transaction an endpoint receives afterwards - on rigs with fewer websocket than RPC endpoints too - must carry the settings in force. The settings are a layer over the adaptor model (Models/AdaptorGas.v: per RPC endpoint a proxy and a commit-reveal session with transact options, the setters' loop over both lists, Connect rebuilding the sessions from the adaptor's fields): over any history every transaction any endpoint receives - first choice or fail-over, proxy or commit-reveal call - carries the configuration or the latest change (C19_gas_settings_in_force, by the invariant that every session carries the adaptor's current setting, C19_gas_initial), and forgetting the settings gives exactly the adaptor history of the other theorems (C19_gas_layer_transparent); the histories are compared with this layer's outputs (settings per received transaction).",
  "C13": "The real dispatch stage (VerifDispatchSign on the submitter) is cancelled while it waits for the node's own share, or after it registered, and 16 late shares arrive: the collector must neither panic nor stop serving another request. The end-to-end systems serve a second, undisturbed request after the first one (same submitter): it must be reported.",
  "C12": "Library-level probes: deals that every verifier approves but that have fewer commitments than the threshold, or one coefficient more / less, run to DistKeyShare on all members - no call may panic. Scenario added: the attacker echoes each member's own broadcast public key back under the attacker's index. Scenario added: both peers' shares reach the submitter before it registers the request (more shares waiting than its recovery takes); the node must serve the following request as well. Every signature-share scenario is followed by a second request.",
